@@ -1,0 +1,421 @@
+//! DiscRig: a real `DiscoveryDB` (with the virtual clock), a real `DPEventLoop` (its handlers are
+//! called directly, the poll loop does not run) holding one real local `Writer` and one real
+//! local `Reader` on topic "T".  Discovery events are applied the way `discovery.rs` applies
+//! them: update the DB, then hand the notification to the event loop.
+
+use std::{
+  collections::HashMap,
+  sync::{Arc, Mutex, RwLock},
+  time::Duration as StdDuration,
+};
+
+use mio_extras::channel as mio_channel;
+
+use super::{
+  clock, net,
+  reader_rig::{guid_from_bytes, guid_to_bytes},
+};
+use crate::{
+  dds::{
+    statusevents::{
+      sync_status_channel, DataReaderStatus, DataWriterStatus, DomainParticipantStatusEvent,
+      LostReason, StatusChannelReceiver,
+    },
+    typedesc::TypeDesc,
+    with_key::simpledatareader::ReaderCommand,
+  },
+  discovery::{
+    builtin_endpoint::BuiltinEndpointSet,
+    discovery::DiscoveryCommand,
+    discovery_db::DiscoveryDB,
+    sedp_messages::{
+      DiscoveredReaderData, DiscoveredWriterData, PublicationBuiltinTopicData, ReaderProxy,
+      SubscriptionBuiltinTopicData, WriterProxy,
+    },
+    spdp_participant_data::SpdpDiscoveredParticipantData,
+  },
+  messages::{protocol_version::ProtocolVersion, vendor_id::VendorId},
+  mio_source,
+  rtps::{
+    constant::*,
+    dp_event_loop::{DPEventLoop, DomainInfo},
+    reader::ReaderIngredients,
+    writer::{WriterCommand, WriterIngredients},
+  },
+  structure::{
+    dds_cache::DDSCache,
+    guid::{EntityId, EntityKind, GuidPrefix, GUID},
+    locator::Locator,
+  },
+  Duration, QosPolicies,
+};
+
+pub const TOPIC: &str = "T";
+
+pub struct DiscRig {
+  ev: DPEventLoop,
+  db: Arc<RwLock<DiscoveryDB>>,
+  writer_status: StatusChannelReceiver<DataWriterStatus>,
+  reader_status: StatusChannelReceiver<DataReaderStatus>,
+  participant_status: StatusChannelReceiver<DomainParticipantStatusEvent>,
+  pub writer_eid: [u8; 4],
+  pub reader_eid: [u8; 4],
+  _keep: Vec<Box<dyn std::any::Any>>,
+}
+
+#[derive(Debug, Clone, Default)]
+pub struct DiscView {
+  pub participants: Vec<[u8; 12]>,
+  pub ext_readers: Vec<[u8; 16]>,
+  pub ext_writers: Vec<[u8; 16]>,
+  pub attic_readers: Vec<[u8; 16]>,
+  pub attic_writers: Vec<[u8; 16]>,
+  /// remote readers matched with the local writer / remote writers matched with the local reader
+  pub writer_matched: Vec<[u8; 16]>,
+  pub reader_matched: Vec<[u8; 16]>,
+}
+
+fn pfx(p: GuidPrefix) -> [u8; 12] {
+  let mut o = [0u8; 12];
+  o.copy_from_slice(p.as_ref());
+  o
+}
+
+pub fn participant_guid(prefix: [u8; 12]) -> GUID {
+  GUID::new_with_prefix_and_id(GuidPrefix::new(&prefix), EntityId::PARTICIPANT)
+}
+
+impl DiscRig {
+  pub fn new(local_writer_qos: &QosPolicies, local_reader_qos: &QosPolicies) -> Self {
+    net::capture_begin();
+    clock::reset_local();
+    let own_prefix = GuidPrefix::new(&[0x0f; 12]);
+    let own_guid = GUID::new_with_prefix_and_id(own_prefix, EntityId::PARTICIPANT);
+
+    let (_add_reader_sender, add_reader_receiver) = mio_channel::channel::<ReaderIngredients>();
+    let (_remove_reader_sender, remove_reader_receiver) = mio_channel::channel::<GUID>();
+    let (_add_writer_sender, add_writer_receiver) = mio_channel::channel::<WriterIngredients>();
+    let (_remove_writer_sender, remove_writer_receiver) = mio_channel::channel::<GUID>();
+    let (_stop_poll_sender, stop_poll_receiver) = mio_channel::channel();
+    let (_dun_sender, dun_receiver) = mio_channel::channel();
+    let (discovery_command_sender, discovery_command_receiver) =
+      mio_channel::sync_channel::<DiscoveryCommand>(64);
+    let (spdp_liveness_sender, spdp_liveness_receiver) = mio_channel::sync_channel(64);
+    let (participant_status_sender, participant_status) =
+      sync_status_channel::<DomainParticipantStatusEvent>(4096).unwrap();
+    let dds_cache = Arc::new(RwLock::new(DDSCache::new()));
+    let (db_event_sender, db_event_receiver) = mio_channel::sync_channel::<()>(64);
+    let db = Arc::new(RwLock::new(DiscoveryDB::new(
+      own_guid,
+      db_event_sender,
+      participant_status_sender.clone(),
+    )));
+
+    let mut ev = DPEventLoop::new(
+      DomainInfo {
+        domain_participant_guid: own_guid,
+        domain_id: 0,
+        participant_id: 0,
+      },
+      dds_cache.clone(),
+      HashMap::new(),
+      db.clone(),
+      own_prefix,
+      TokenReceiverPair {
+        token: ADD_READER_TOKEN,
+        receiver: add_reader_receiver,
+      },
+      TokenReceiverPair {
+        token: REMOVE_READER_TOKEN,
+        receiver: remove_reader_receiver,
+      },
+      TokenReceiverPair {
+        token: ADD_WRITER_TOKEN,
+        receiver: add_writer_receiver,
+      },
+      TokenReceiverPair {
+        token: REMOVE_WRITER_TOKEN,
+        receiver: remove_writer_receiver,
+      },
+      stop_poll_receiver,
+      dun_receiver,
+      discovery_command_sender,
+      spdp_liveness_sender,
+      participant_status_sender,
+      None,
+    );
+
+    // local writer
+    let writer_entity = EntityId::new([0, 0, 1], EntityKind::WRITER_WITH_KEY_USER_DEFINED);
+    let (wcmd_sender, wcmd_receiver) = mio_channel::sync_channel::<WriterCommand>(16);
+    let (wstatus_sender, writer_status) = sync_status_channel::<DataWriterStatus>(4096).unwrap();
+    ev.verif_add_local_writer(WriterIngredients {
+      guid: GUID::new_with_prefix_and_id(own_prefix, writer_entity),
+      writer_command_receiver: wcmd_receiver,
+      writer_command_receiver_waker: Arc::new(Mutex::new(None)),
+      topic_name: TOPIC.to_string(),
+      like_stateless: false,
+      qos_policies: local_writer_qos.clone(),
+      status_sender: wstatus_sender,
+      security_plugins: None,
+    });
+
+    // local reader
+    let reader_entity = EntityId::new([0, 0, 2], EntityKind::READER_WITH_KEY_USER_DEFINED);
+    let topic_cache = dds_cache.write().unwrap().add_new_topic(
+      TOPIC.to_string(),
+      TypeDesc::new("VSample".to_string()),
+      local_reader_qos,
+    );
+    let (notification_sender, notification_receiver) = mio_channel::sync_channel::<()>(4);
+    let (rstatus_sender, reader_status) = sync_status_channel::<DataReaderStatus>(4096).unwrap();
+    let (rcmd_sender, rcmd_receiver) = mio_channel::sync_channel::<ReaderCommand>(0);
+    let (poll_event_source, poll_event_sender) = mio_source::make_poll_channel().unwrap();
+    ev.verif_add_local_reader(ReaderIngredients {
+      guid: GUID::new_with_prefix_and_id(own_prefix, reader_entity),
+      notification_sender,
+      status_sender: rstatus_sender,
+      topic_name: TOPIC.to_string(),
+      topic_cache_handle: topic_cache,
+      like_stateless: false,
+      qos_policy: local_reader_qos.clone(),
+      data_reader_command_receiver: rcmd_receiver,
+      data_reader_waker: Arc::new(Mutex::new(None)),
+      poll_event_sender,
+      security_plugins: None,
+    });
+
+    Self {
+      ev,
+      db,
+      writer_status,
+      reader_status,
+      participant_status,
+      writer_eid: [0, 0, 1, EntityKind::WRITER_WITH_KEY_USER_DEFINED.into()],
+      reader_eid: [0, 0, 2, EntityKind::READER_WITH_KEY_USER_DEFINED.into()],
+      _keep: vec![
+        Box::new(wcmd_sender),
+        Box::new(rcmd_sender),
+        Box::new(notification_receiver),
+        Box::new(poll_event_source),
+        Box::new(discovery_command_receiver),
+        Box::new(spdp_liveness_receiver),
+        Box::new(db_event_receiver),
+        Box::new(_add_reader_sender),
+        Box::new(_remove_reader_sender),
+        Box::new(_add_writer_sender),
+        Box::new(_remove_writer_sender),
+        Box::new(_stop_poll_sender),
+        Box::new(_dun_sender),
+      ],
+    }
+  }
+
+  /// the virtual clock of this thread moves forward
+  pub fn advance_clock_ms(&mut self, ms: u64) {
+    clock::advance_local(StdDuration::from_millis(ms));
+  }
+
+  /// SPDP announcement of participant `prefix` arrives (Discovery::process_discovered_participant_data).
+  /// lease_ms: None = no lease announced.  Returns "was previously unknown".
+  pub fn spdp(&mut self, prefix: [u8; 12], lease_ms: Option<i64>) -> bool {
+    let port = 7400 + prefix[0] as u16;
+    let loc = Locator::from(std::net::SocketAddr::from(([127, 0, 0, 1], port)));
+    let data = SpdpDiscoveredParticipantData {
+      updated_time: chrono::Utc::now(),
+      protocol_version: ProtocolVersion::THIS_IMPLEMENTATION,
+      vendor_id: VendorId::THIS_IMPLEMENTATION,
+      expects_inline_qos: false,
+      participant_guid: participant_guid(prefix),
+      metatraffic_unicast_locators: vec![loc.clone()],
+      metatraffic_multicast_locators: vec![],
+      default_unicast_locators: vec![loc],
+      default_multicast_locators: vec![],
+      available_builtin_endpoints: BuiltinEndpointSet::from_u32(0x3f),
+      lease_duration: lease_ms.map(Duration::from_millis),
+      manual_liveliness_count: 0,
+      builtin_endpoint_qos: None,
+      entity_name: None,
+      #[cfg(feature = "security")]
+      identity_token: None,
+      #[cfg(feature = "security")]
+      permissions_token: None,
+      #[cfg(feature = "security")]
+      property: None,
+      #[cfg(feature = "security")]
+      security_info: None,
+    };
+    let was_new = self.db.write().unwrap().update_participant(&data);
+    self.ev.verif_participant_updated(GuidPrefix::new(&prefix));
+    // (on rediscovery discovery.rs re-reads its SEDP DataReaders for unread samples of that
+    // participant; in this rig every SEDP sample has been consumed when it was injected)
+    was_new
+  }
+
+  /// a DATA from the participant's SPDP writer was seen (spdp_liveness channel -> participant_is_alive)
+  pub fn alive(&mut self, prefix: [u8; 12]) {
+    self
+      .db
+      .write()
+      .unwrap()
+      .participant_is_alive(GuidPrefix::new(&prefix));
+  }
+
+  /// Discovery::participant_cleanup: returns (prefix, lease_ms, elapsed_ms) of every participant declared lost
+  pub fn cleanup(&mut self) -> Vec<([u8; 12], i64, i64)> {
+    let removed = self.db.write().unwrap().participant_cleanup();
+    let mut out = vec![];
+    for (p, reason) in removed {
+      self.ev.verif_participant_lost(p);
+      if let LostReason::Timeout { lease, elapsed } = reason {
+        out.push((
+          pfx(p),
+          lease.to_nanoseconds() / 1_000_000,
+          elapsed.to_nanoseconds() / 1_000_000,
+        ));
+      } else {
+        out.push((pfx(p), -1, -1));
+      }
+    }
+    out
+  }
+
+  /// SPDP dispose (Discovery::process_participant_dispose)
+  pub fn dispose_participant(&mut self, prefix: [u8; 12]) {
+    let p = GuidPrefix::new(&prefix);
+    self.db.write().unwrap().remove_participant(p, true);
+    self.ev.verif_participant_lost(p);
+  }
+
+  /// SEDP subscription data (Discovery::handle_subscription_reader, Sample::Value)
+  pub fn announce_reader(&mut self, guid: [u8; 16], topic: &str, qos: &QosPolicies) {
+    let g = guid_from_bytes(guid);
+    let drd = DiscoveredReaderData {
+      reader_proxy: ReaderProxy::new(g, false, vec![], vec![]),
+      subscription_topic_data: SubscriptionBuiltinTopicData::new(
+        g,
+        Some(GUID::new_with_prefix_and_id(g.prefix, EntityId::PARTICIPANT)),
+        topic.to_string(),
+        "VSample".to_string(),
+        qos,
+        None,
+      ),
+      content_filter: None,
+    };
+    let drd = self.db.write().unwrap().update_subscription(&drd);
+    self.ev.verif_reader_updated(&drd);
+  }
+
+  /// SEDP subscription dispose
+  pub fn dispose_reader(&mut self, guid: [u8; 16]) {
+    let g = guid_from_bytes(guid);
+    self.db.write().unwrap().remove_topic_reader(g);
+    self.ev.verif_reader_lost(g);
+  }
+
+  /// SEDP publication data
+  pub fn announce_writer(&mut self, guid: [u8; 16], topic: &str, qos: &QosPolicies) {
+    let g = guid_from_bytes(guid);
+    let mut ptd = PublicationBuiltinTopicData::new(
+      g,
+      Some(GUID::new_with_prefix_and_id(g.prefix, EntityId::PARTICIPANT)),
+      topic.to_string(),
+      "VSample".to_string(),
+      None,
+    );
+    ptd.set_qos(qos);
+    let dwd = DiscoveredWriterData {
+      last_updated: std::time::Instant::now(),
+      writer_proxy: WriterProxy::new(g, vec![], vec![]),
+      publication_topic_data: ptd,
+    };
+    let dwd = self.db.write().unwrap().update_publication(&dwd);
+    self.ev.verif_writer_updated(&dwd);
+  }
+
+  pub fn dispose_writer(&mut self, guid: [u8; 16]) {
+    let g = guid_from_bytes(guid);
+    self.db.write().unwrap().remove_topic_writer(g);
+    self.ev.verif_writer_lost(g);
+  }
+
+  pub fn view(&mut self) -> DiscView {
+    let (ps, er, ew, ar, aw) = self.db.read().unwrap().verif_projection();
+    let we = EntityId::new([0, 0, 1], EntityKind::WRITER_WITH_KEY_USER_DEFINED);
+    let re = EntityId::new([0, 0, 2], EntityKind::READER_WITH_KEY_USER_DEFINED);
+    DiscView {
+      participants: ps.into_iter().map(pfx).collect(),
+      ext_readers: er.into_iter().map(guid_to_bytes).collect(),
+      ext_writers: ew.into_iter().map(guid_to_bytes).collect(),
+      attic_readers: ar.into_iter().map(guid_to_bytes).collect(),
+      attic_writers: aw.into_iter().map(guid_to_bytes).collect(),
+      writer_matched: self.ev.verif_writer_matched(we),
+      reader_matched: self.ev.verif_reader_matched(re),
+    }
+  }
+
+  /// status events of the local writer since the last call: (kind, endpoint, current, current change, total)
+  pub fn drain_writer_status(&mut self) -> Vec<(String, [u8; 16], i32, i32, i32)> {
+    let mut out = vec![];
+    while let Ok(s) = self.writer_status.try_recv() {
+      match s {
+        DataWriterStatus::PublicationMatched {
+          total,
+          current,
+          reader,
+        } => out.push((
+          "Matched".to_string(),
+          guid_to_bytes(reader),
+          current.count(),
+          current.count_change(),
+          total.count(),
+        )),
+        DataWriterStatus::OfferedIncompatibleQos { count, reader, .. } => out.push((
+          "IncompatibleQos".to_string(),
+          guid_to_bytes(reader),
+          count.count(),
+          count.count_change(),
+          count.count(),
+        )),
+        _ => {}
+      }
+    }
+    out
+  }
+
+  pub fn drain_reader_status(&mut self) -> Vec<(String, [u8; 16], i32, i32, i32)> {
+    let mut out = vec![];
+    while let Ok(s) = self.reader_status.try_recv() {
+      match s {
+        DataReaderStatus::SubscriptionMatched {
+          total,
+          current,
+          writer,
+        } => out.push((
+          "Matched".to_string(),
+          guid_to_bytes(writer),
+          current.count(),
+          current.count_change(),
+          total.count(),
+        )),
+        DataReaderStatus::RequestedIncompatibleQos { count, writer, .. } => out.push((
+          "IncompatibleQos".to_string(),
+          guid_to_bytes(writer),
+          count.count(),
+          count.count_change(),
+          count.count(),
+        )),
+        _ => {}
+      }
+    }
+    out
+  }
+
+  pub fn drain_participant_status(&mut self) -> usize {
+    let mut n = 0;
+    while self.participant_status.try_recv().is_ok() {
+      n += 1;
+    }
+    n
+  }
+}
